@@ -425,10 +425,9 @@ func (c *glCtx) binary(x *ast.BinaryExpr) (string, string) {
 			glfail("arithmetic on %s", t)
 		}
 		if x.Op == token.REM {
-			// Go's % truncates; for uint8 operands (non-negative) it is Lean's Int.emod; for int only with a
-			// non-negative dividend, which the subset does not establish
+			// Go's % truncates toward zero: Int.tmod; for uint8 operands (non-negative) that is Lean's %
 			if t != tU8 {
-				glfail("%% on signed int")
+				return "(Int.tmod " + l + " " + r + ")", t
 			}
 			return c.wrap(t, l+" % "+r), t
 		}
